@@ -19,6 +19,8 @@ NA = {
     "C19": "pure function of two integers",
 }
 
+SCHED_NOTE = "Trusts the ThreadPool stub (SimPool) as observably equivalent to multiprocessing.pool.ThreadPool.map (compared with the real class in a self-test on every run) and treats one bytecode instruction as atomic; races confined to a single GIL-releasing C loop are outside the model."
+
 HIST_NOTE = "Trusts NumPy (concatenate, column_stack, take, boolean selection) as reference semantics and the generator's guards for keeping arguments inside each operation's documented domain; from_array's content is C01's business (the model adopts its result)."
 HIST_TECH = "deterministic simulation: seeded operation-and-fault histories (incl. persist/crash/reload through a simulated disk) executed on real iindex objects and a dense NumPy reference model, judged after every step; ddmin-minimised replay files"
 
@@ -32,6 +34,18 @@ CHECKS = [
     ("C15", "hist", "exploration", "4 C15",
      "Same histories as C06; after every library-chosen normalisation (shift_common(), append, filtered, collapsed, from_array without common) the chosen common must be a most frequent value of the dense content; after every step ==/!= are evaluated over all pairs of live indexes and their directly-built twins and must coincide with (shape, common, dense content) equality, never raise, and be False against non-indexes. Sampling over histories.",
      HIST_NOTE, HIST_TECH),
+    ("C16", "sched", "exploration", "4 C16",
+     "Pooled evaluation under a seeded scheduler: real worker threads pass a baton, a pre-emption point precedes every bytecode instruction of catii code (sys.monitoring), and a seeded strategy (run-to-completion, uniform p, PCT, targeted pre-empt/resume) decides every context switch; each workload (both cube types, 3-24 sub-cubes, 1-3 aggregates together, pool sizes 1-16) is evaluated serially once and pooled under several schedules, and every pooled output must equal the serial one in type, dtype, shape and bits. Sampling over workloads and schedules.",
+     SCHED_NOTE,
+     "deterministic simulation: seeded instruction-granular thread scheduler behind a ThreadPool stub; differential (pooled vs serial) bit comparison; replay = explicit context-switch list"),
+    ("C17", "sched", "exploration", "4 C17",
+     "Call histories over shared objects (two dimension lists, fact/weight variables with garbage under False validity, two cubes, 2-5 aggregate objects): calculate of sub-lists in random order run serially, pooled under seeded schedules, or interrupted by an injected raise; shortcut methods; the same aggregate objects on another cube; new cubes; non-mutating index methods. After every call all shared arguments are byte-compared with snapshots, every result is compared bit for bit with the aggregate evaluated alone on fresh copies, and all earlier results with their own snapshots. Sampling over sessions.",
+     SCHED_NOTE + " The isolated serial evaluation of one aggregate on fresh objects is the reference.",
+     "deterministic simulation: seeded call-and-fault histories over shared objects (serial, scheduled-pooled and interrupted calls), snapshot and isolated re-evaluation oracles"),
+    ("C20", "sched", "fault_enumeration", "4 C20",
+     "The fault injector is the check_interrupt callback: for each workload a raise at EVERY invocation index in serial mode (Exception and BaseException subclasses), and in pooled mode singletons and seeded subsets of sub-cubes under seeded schedules and pool sizes; oracles: the raised object propagates, the callback is consulted once per sub-cube, each chunk stops at its first raise, no worker survives calculate, and a recovery calculate on the same objects (serial or pooled) equals a fresh evaluation bit for bit with inputs unchanged. Exhaustive over serial interrupt indexes per cube; sampled over cubes, pooled subsets and schedules.",
+     SCHED_NOTE + " Pooled interrupts are Exception subclasses only (the real worker loop catches Exception only).",
+     "deterministic simulation with fault injection: interrupt injection at every cancellation point (serial, exhaustive) and at subsets x seeded schedules (pooled), followed by recovery calls"),
     ("C10", "disk", "exploration", "4 C10",
      "Fault-free arm of the storage simulation: seeded entry sets and generated indexes are written by the real IndxIO.save through a logging file object onto a memfd, the disk is cleanly restarted and the real IndxIO.load runs on a fresh descriptor; results are compared field by field (plain ints, uint32 arrays, association, rebuilt index equality and validation). Sampling over inputs, not a proof.",
      "Trusts NumPy/CPython/the kernel's memfd; the write-log-reproduces-file guard turns a bypassed seam into a harness error.",
